@@ -13,5 +13,6 @@ for id in "$@"; do
   echo "== $id exit=$r"; echo "$out" | grep -E "VIOLATION|HARNESS|oracle=" | cut -c1-300 | head -8
   [ $r -ne 0 ] && rc=$r
 done
+rm -rf /tmp/last-mutant-replays; cp -r "$d/.replays" /tmp/last-mutant-replays 2>/dev/null
 rm -rf "$d"
 exit $rc
